@@ -165,6 +165,9 @@ func c07Once(e *env, c *Case, o *outcome, md protoreflect.MessageDescriptor, fds
 		if c.Handler != "" {
 			by += ":handler=" + c.Handler
 		}
+		if c.Extra == "zero-segment-tail" {
+			by += ":zero-segment-tail"
+		}
 		if ct := c.Req.Header["Content-Type"]; len(ct) > 0 && strings.HasPrefix(by, "body") {
 			mt, _, _ := strings.Cut(ct[0], ";")
 			if mt != "application/json" && mt != "application/protobuf" && mt != "application/octet-stream" {
@@ -268,6 +271,7 @@ func keyLeaves(p *plan) []leaf {
 
 // c07Extra adds parameters that do not compete for the bound field.
 type c07Extra struct {
+	zeroTail bool   // the request path stops right before the template's trailing **
 	oddText  string // replace the capture of the variable by this text (typed variables)
 	keys     int    // this many URL parameters in total, on distinct keys as far as the type allows
 	siblings int    // 1..3 query params on same-typed sibling sub-messages
@@ -367,7 +371,16 @@ func (g *gen) c07Case(p *plan, v pathVar, idx int, qv, bv string, ex c07Extra) (
 		c.OddText, c.Text = true, ex.oddText
 		texts[v.field] = ex.oddText
 	}
-	q := reqSpec{Verb: reqVerb(p.rule), Path: p.instantiate(texts)}
+	q := reqSpec{Verb: reqVerb(p.rule), Path: p.instantiateTail(texts, ex.zeroTail)}
+	if ex.zeroTail {
+		last := p.t.Segs[len(p.t.Segs)-1]
+		if !p.endsInStarStar() || (last.Kind == tmplref.Var && protoPath(textref.Resolve(p.in, last.Field)) == v.field) {
+			return nil, nil
+		}
+		if g.n%3 == 0 {
+			q.Path += "/" // a trailing slash is trimmed by the mux
+		}
+	}
 	var query []kv
 	if qv != "none" {
 		Q, err := other(0)
@@ -655,11 +668,15 @@ func (g *gen) c07Case(p *plan, v pathVar, idx int, qv, bv string, ex c07Extra) (
 	if ex.oddText != "" {
 		c.Via += ",path-text=" + ex.oddText
 	}
+	if ex.zeroTail {
+		c.Via += ",zero-segment-tail"
+		c.Extra = "zero-segment-tail"
+	}
 	c.Class = p.rule.bodyShape() + ":" + c.Via
 	return c, nil
 }
 
-const ruleC07 = "every rule of the C03 catalogue with at least one path variable (vf.Req, ComplexRequest and the real larking.testpb annotations incl. Files.UploadDownload; top-level, nested and doubly nested fields; typed, enum, oneof and well-known-type variables; body '*', body <field>, no body). For every variable and several captures: competing, different values for the same field through the query string (proto name, JSON name, the key twice, before / after another key) and / or the body (JSON, protobuf, gzip JSON; body '*' or a body field that contains the variable), all combinations. In addition, for every variable on a nested field: 1-3 query parameters on same-typed sibling sub-messages (vf.Req sub / osub, ComplexRequest nested / oneof_nested; the sibling's field of the same name first) before / after the competing key, x query x body competitors; and for every variable: a repeated query field of 10, 63, 64, 65, 200, 1000 elements next to the competitors. These requests are served 4 times each (query parameters are applied in map order). Oracle: the handler's value of the field equals the protojson value of the path capture, and - for the cases with non-competing parameters on rules without body '*' - the whole message equals the capture(s) plus every parameter the client sent; a request rejected with an error status is allowed. Streaming HTTP rules (HttpBody uploads on client-streaming and bidi methods incl. the real Files.LargeUploadDownload, server-streaming downloads) run the query matrix with every way the handler can obtain the first message (stream.Recv looping to EOF, larking.AsHTTPBodyReader; replies through stream.Send and larking.AsHTTPBodyWriter). The body competitor also comes as application/x-www-form-urlencoded (with / without charset), multipart/form-data, text/plain and application/json; charset=utf-8: whatever the tree accepts must not override the path, a refusal is no claim. Also 13, 14, 20 and 40 URL parameters on distinct keys (one naming the bound field), each request served 20 times. The catalogue includes constant variables ({f=lit}, {f=lit/lit}, typed {f=true}, {e=RED}, the real Messaging.Action {text=action}) and variables of every scalar kind and bytes (top-level and nested) on rules that map a body; bytes captures are spelled std / url-safe, padded / unpadded; bodies carry the competing value or do not name the field at all, with fillers of 0-6000 bytes. Typed variables also capture odd texts (null, NULL, Null, nil, undefined, NaN, true, false, 0, -0, none, Infinity) next to query / body competitors: the route may be refused or the field holds a proto3-JSON reading of the text, never the competitor. Control frames (ping, unsolicited pong) are interleaved before the first and between data frames. WebSocket transport (real loopback listener through larking.NewServer): websocket-kind bindings on bidi methods (vf.Req top-level / nested / typed / bytes / multi-segment variables, body '*' and body field; the real testpb ChatRoom.Chat) with the competing value in the query string, in the first frame and / or in later frames (1-3 frames, each acknowledged by the handler): the first message the handler receives must carry the capture. distinct = (rule, variable, query variant, body variant, sibling / list-size variant | websocket frame variant) of dispatched requests that kept the capture"
+const ruleC07 = "every rule of the C03 catalogue with at least one path variable (vf.Req, ComplexRequest and the real larking.testpb annotations incl. Files.UploadDownload; top-level, nested and doubly nested fields; typed, enum, oneof and well-known-type variables; body '*', body <field>, no body). For every variable and several captures: competing, different values for the same field through the query string (proto name, JSON name, the key twice, before / after another key) and / or the body (JSON, protobuf, gzip JSON; body '*' or a body field that contains the variable), all combinations. In addition, for every variable on a nested field: 1-3 query parameters on same-typed sibling sub-messages (vf.Req sub / osub, ComplexRequest nested / oneof_nested; the sibling's field of the same name first) before / after the competing key, x query x body competitors; and for every variable: a repeated query field of 10, 63, 64, 65, 200, 1000 elements next to the competitors. These requests are served 4 times each (query parameters are applied in map order). Oracle: the handler's value of the field equals the protojson value of the path capture, and - for the cases with non-competing parameters on rules without body '*' - the whole message equals the capture(s) plus every parameter the client sent; a request rejected with an error status is allowed. Streaming HTTP rules (HttpBody uploads on client-streaming and bidi methods incl. the real Files.LargeUploadDownload, server-streaming downloads) run the query matrix with every way the handler can obtain the first message (stream.Recv looping to EOF, larking.AsHTTPBodyReader; replies through stream.Send and larking.AsHTTPBodyWriter). The body competitor also comes as application/x-www-form-urlencoded (with / without charset), multipart/form-data, text/plain and application/json; charset=utf-8: whatever the tree accepts must not override the path, a refusal is no claim. Also 13, 14, 20 and 40 URL parameters on distinct keys (one naming the bound field), each request served 20 times. The catalogue includes constant variables ({f=lit}, {f=lit/lit}, typed {f=true}, {e=RED}, the real Messaging.Action {text=action}) and variables of every scalar kind and bytes (top-level and nested) on rules that map a body; bytes captures are spelled std / url-safe, padded / unpadded; bodies carry the competing value or do not name the field at all, with fillers of 0-6000 bytes. Templates ending in ** (bare or variable) after other variables are also requested with a zero-segment tail (with / without trailing slash): refused or bound as usual. Typed variables also capture odd texts (null, NULL, Null, nil, undefined, NaN, true, false, 0, -0, none, Infinity) next to query / body competitors: the route may be refused or the field holds a proto3-JSON reading of the text, never the competitor. Control frames (ping, unsolicited pong) are interleaved before the first and between data frames. WebSocket transport (real loopback listener through larking.NewServer): websocket-kind bindings on bidi methods (vf.Req top-level / nested / typed / bytes / multi-segment variables, body '*' and body field; the real testpb ChatRoom.Chat) with the competing value in the query string, in the first frame and / or in later frames (1-3 frames, each acknowledged by the handler): the first message the handler receives must carry the capture. distinct = (rule, variable, query variant, body variant, sibling / list-size variant | websocket frame variant) of dispatched requests that kept the capture"
 
 // RunC07 is the path-bound-fields-are-authoritative check.
 func RunC07(r *mon.Run) {
@@ -776,6 +793,20 @@ func RunC07(r *mon.Run) {
 									do(g.c07Case(p, v, 3+7*k+n, qv, bv, c07Extra{siblings: n, sibPos: pos}))
 								}
 							}
+						}
+					}
+				}
+			}
+			// a trailing ** matched with zero segments (refused on a tree where **
+			// needs a segment; if served, the captures must be bound as usual)
+			if p.endsInStarStar() {
+				for _, qv := range []string{"none", "proto-name", "json-name", "twice"} {
+					for _, bv := range []string{"none", "json", "protobuf"} {
+						if qv == "none" && bv == "none" {
+							continue
+						}
+						for k := 0; k < 2; k++ {
+							do(g.c07Case(p, v, 3+4*k, qv, bv, c07Extra{zeroTail: true}))
 						}
 					}
 				}
